@@ -34,7 +34,7 @@ class Req:
 
 class PoolExec:
     def __init__(self, loop: steploop.StepLoop, L: int, Lh: int, names: List[str], keyof: Dict[str, str],
-                 connect_timeout: Optional[Dict[str, float]] = None) -> None:
+                 connect_timeout: Optional[Dict[str, float]] = None, traced: Optional[set] = None) -> None:
         import aiohttp
         from aiohttp import ClientTimeout
         from aiohttp.connector import BaseConnector
@@ -44,6 +44,9 @@ class PoolExec:
         self.names = list(names)
         self.keyof = dict(keyof)
         self.timeouts = connect_timeout or {}
+        self.traced = traced or set()
+        self._trace_cfg = None
+        self.trace_phase: Dict[str, str] = {}
         ex = self
 
         class HarnessConnector(BaseConnector):
@@ -84,8 +87,10 @@ class PoolExec:
         if t is None:
             return "new"
         if not t.done():
-            if n in self.creating:
+            if n in self.creating or self.trace_phase.get(n) == "reserved":
                 return "creating"
+            if self.trace_phase.get(n) == "reused":
+                return "reusing"      # took an idle connection, still inside the reuseconn trace callback
             return "waiting" if self.started.get(n) else "spawned"
         if t.cancelled():
             return "cancelled"
@@ -123,10 +128,42 @@ class PoolExec:
         to = self.timeouts.get(n)
         timeout = self.ClientTimeout(total=None, connect=to) if to else self.ClientTimeout(total=None)
         req = Req(n, self.keyof[n])
-        coro = self.connector.connect(req, [], timeout)  # type: ignore[arg-type]
+        traces: list = []
+        if n in self.traced:
+            traces = [self._make_trace(n)]
+        coro = self.connector.connect(req, traces, timeout)  # type: ignore[arg-type]
         self.tasks[n] = self.loop.create_task(coro)
         self.started[n] = False
         self.rec("spawn", t=n)
+
+    def _make_trace(self, n: str) -> Any:
+        """A TraceConfig whose connection_* callbacks really suspend (one loop turn each).
+        The callbacks also tell the harness when the caller has reserved a slot
+        (connection_create_start / reuseconn), which the harness otherwise infers from
+        _create_connection being entered."""
+        from types import SimpleNamespace
+        from aiohttp import TraceConfig
+        from aiohttp.tracing import Trace
+
+        if self._trace_cfg is None:
+            tc = TraceConfig()
+            ex = self
+
+            def mk(phase: Optional[str]) -> Any:
+                async def cb(session: Any, ctx: Any, params: Any) -> None:
+                    if phase is not None:
+                        ex.trace_phase[ctx.name] = phase
+                    await asyncio.sleep(0)
+                return cb
+
+            tc.on_connection_queued_start.append(mk(None))
+            tc.on_connection_queued_end.append(mk(None))
+            tc.on_connection_create_start.append(mk("reserved"))
+            tc.on_connection_create_end.append(mk("reserved"))
+            tc.on_connection_reuseconn.append(mk("reused"))
+            tc.freeze()
+            self._trace_cfg = tc
+        return Trace(SimpleNamespace(), self._trace_cfg, SimpleNamespace(name=n))
 
     def create_ok(self, n: str) -> None:
         self.creating[n].set_result("ok")
@@ -220,7 +257,7 @@ class PoolExec:
         self.settle()
         for n in self.names:
             st = self.status(n)
-            if st == "creating" and not self.creating[n].done():
+            if st == "creating" and n in self.creating and not self.creating[n].done():
                 self.create_ok(n)
         self.settle()
         for n in self.names:
@@ -252,7 +289,7 @@ class PoolExec:
             self.settle()
             for i in range(self.L):
                 n = f"p{i}"
-                if self.status(n) == "creating":
+                if self.status(n) == "creating" and n in self.creating and not self.creating[n].done():
                     self.create_ok(n)
             self.settle()
             for i in range(self.L):
@@ -362,7 +399,8 @@ def random_exec(ctx: Ctx, loop: steploop.StepLoop, rng: Any) -> dict:
     keyof = {n: f"k{rng.randint(1, nk)}" for n in names}
     use_timeout = rng.random() < 0.4
     touts = {n: float(rng.choice([1, 2, 3])) for n in names if use_timeout and rng.random() < 0.5}
-    x = PoolExec(loop, L, Lh, names, keyof, touts)
+    traced = {n for n in names if rng.random() < 0.5} if rng.random() < 0.3 else set()
+    x = PoolExec(loop, L, Lh, names, keyof, touts, traced)
     allow_close = rng.random() < 0.2
     for _ in range(rng.randint(6, 40)):
         acts = []
@@ -370,7 +408,7 @@ def random_exec(ctx: Ctx, loop: steploop.StepLoop, rng: Any) -> dict:
         for n, s in sts.items():
             if s == "new":
                 acts.append(("spawn", n))
-            if s == "creating" and not x.creating[n].done():
+            if s == "creating" and n in x.creating and not x.creating[n].done():
                 acts += [("ok", n), ("ok", n), ("fail", n)]
             if s in ("spawned", "waiting", "creating") and rng.random() < 0.25:
                 acts.append(("cancel", n))
@@ -500,7 +538,7 @@ def run(ctx: Ctx) -> None:
     ctx.assumptions = [
         "callers are tasks running connector.connect(); the harness decides when a connection attempt succeeds or fails",
         "connect() issued on an already closed connector is outside the property",
-        "trace hooks (TraceConfig) add awaits inside connect(); not explored",
+        "TraceConfig callbacks that suspend are exercised by the random driver only (the TLA+ model has no trace awaits)",
     ]
     loop = steploop.new_loop()
     # ---- 1. bounded model
